@@ -64,8 +64,11 @@ TLoad == /\ IsEv("load") /\ Ev.ok /\ Load
 
 \* the second object saved under the path must really be another one (else the history shows nothing)
 \* the frame shown by the ONE browsed object after solve_step = k, against the file content logged at the save event
-TBrowse == /\ IsEv("browse") /\ Ev.ok /\ Browse(Ev.k)
+\* Ev.views: the views a cache-free reader (a fresh Solution.from_hdf5 per step) derives from every recorded step;
+\* Ev.view: the views of the ONE browsed object after solve_step = k
+TBrowse == /\ IsEv("browse") /\ Ev.ok /\ BrowseV(Ev.k, Ev.views)
            /\ cursor'.frame = Ev.frame
+           /\ cursor'.view = Ev.view
 TRemove == /\ IsEv("remove") /\ Ev.ok /\ Remove
 TMadeAgain == pc = "removed" => (Ev.saved # saved)
 TNext == (TMade /\ TMadeAgain) \/ TSave \/ TLoad \/ TBrowse \/ TRemove
